@@ -129,8 +129,20 @@ def _hist_observe(i):
                 ch = Chart.from_file(io.StringIO(HIST_TEXTS[i]), want_tracks=HIST_SELECT[i])
             except Exception as e:  # noqa: BLE001
                 return "raised " + type(e).__name__
-        # what a user can observe: every datum, the rendering, and the reports in the order given
-        return repr(observe(ch)) + " || " + str(ch) + " || " + repr(log.msgs)
+        # what a user can observe: every datum, the rendering, the reports in the order given, and the
+        # answers of the read-only queries (rate over the whole track, a tick-to-time query)
+        answers = []
+        for ins in list(ch.instrument_tracks.keys()):
+            for dif in list(ch.instrument_tracks[ins].keys()):
+                try:
+                    answers.append((ins.name, dif.name, ch.notes_per_second(ins, dif)))
+                except ValueError:
+                    answers.append((ins.name, dif.name, "ValueError"))
+        try:
+            answers.append(("t(1000)", _norm(ch.sync_track.bpm_events.timestamp_at_tick_no_optimize_return(1000))))
+        except ValueError:
+            answers.append(("t(1000)", "ValueError"))
+        return repr(observe(ch)) + " || " + str(ch) + " || " + repr(log.msgs) + " || " + repr(answers)
 
 
 _HIST_PROG = '''
